@@ -1,5 +1,6 @@
 import KvarnModel.Drv.Util
 import KvarnModel.Sanitize
+import KvarnModel.Range
 namespace Drv.C01
 open Wire Drv Sanitize
 
@@ -39,8 +40,18 @@ def child (n : Node) (name : String) : Node :=
 
 def handle : List String → Option String
   | ["ok", p] => do pure (boolStr (pathOk (← bytesOfHex p)))
+  -- san <path> <range header|none> : the whole of `sanitize_request` (path test first, then the range)
+  | ["san", p, r] => do
+    let path ← bytesOfHex p
+    let hdr ← if r = "none" then some none else (bytesOfHex r).map some
+    pure (if !pathOk path then "400" else
+      match Range.sanitizeRange hdr with
+      | .error _ => "416"
+      | .ok none => "ok"
+      | .ok (some (a, b)) => s!"ok {a}-{b}")
   | ["pdecode", p] => do pure (hexOfBytes (percentDecode (← bytesOfHex p)))
   -- rel <host 0-3> <method> <path> : what handle_cache answers on the fixture tree
+  | ["rel", h, m, p, _hdrs] => handle ["rel", h, m, p]
   | ["rel", h, m, p] => do
     let path ← bytesOfHex p
     let cfg : Cfg := if h = "1" then ⟨[], []⟩ else ⟨b "index.html", b "html"⟩
